@@ -16,6 +16,10 @@ for d in sorted(glob.glob(os.path.join(os.path.dirname(os.path.dirname(os.path.a
     low = text.lower()
     first = "after strengthening" if ("missed" in low or "strengthen" in low or "no-failing-input" in low) else "first run"
     m["detected_by"] = det
+    if m.get("kind") == "behaviour-preserving":
+        det = ["(must stay quiet) " + ", ".join(m.get("quiet_on", []))]
+        m["detected_by"] = det
+        first = "quiet"
     rows.append("| %s | %s | %s | %s | %s |" % (os.path.basename(d), ", ".join(m.get("files", []))[:60].replace("src/prov/", ""),
                                            m.get("summary", "").replace("|", "/")[:170], ", ".join(m.get("detected_by", [])), first))
 print("| id | file(s) | change | detected by | when |")
